@@ -52,10 +52,21 @@ NEEDS = {
 }
 
 
+def _needs_from_notes(d):
+    """first sentence of the notes that says what is needed to manifest (fallback)."""
+    p = os.path.join(d, "notes.md")
+    if not os.path.exists(p):
+        return "see notes.md"
+    txt = open(p).read()
+    import re
+    m = re.search(r"(?is)(needs?|needed|to manifest|manifests?)[^\n]{0,20}[:\-]?\s*([^\n]{20,300})", txt)
+    return ("see notes.md: " + m.group(0).strip()[:300]) if m else "see notes.md"
+
+
 def main():
     os.makedirs(DST, exist_ok=True)
     n = 0
-    for cj in sorted(glob.glob(os.path.join(SRC, "C*", "*", "confirm.json"))):
+    for cj in sorted(glob.glob(os.path.join(SRC, "C*", "*", "confirm.json")) + glob.glob(os.path.join("/tmp/mutout2", "C*", "*", "confirm.json"))):
         d = os.path.dirname(cj)
         c = json.load(open(cj))
         sid = c["id"]
@@ -77,7 +88,8 @@ def main():
             "id": sid,
             "breaks_property": sid.split("-")[0],
             "files_changed": files,
-            "needs_to_manifest": NEEDS.get(sid, old.get("needs_to_manifest", "see notes.md")),
+            "needs_to_manifest": NEEDS.get(sid, old.get("needs_to_manifest") or _needs_from_notes(d)),
+            "round": 2 if "-r2-" in sid else 1,
             "demonstration": demos,
             "confirmed_by_me": {
                 "how": "tools/confirm_seed.sh on a scratch git worktree of /repo at %s (removed afterwards): git apply patch.diff; cargo build --workspace; "
